@@ -14,7 +14,7 @@ VARIABLE edits
 MCFiles   == <<"932100-chain1", "932100", "932110">>
 MCSources == {"store", "loadonly", "define", "refonly", "flagsprefix", "plain", "unclosed", "incl",
               \* one per fault class of C16, at top level, in a block and in an include
-              "missinginc", "malformed", "unknownproc", "badcmdline", "strayend", "badflag", "badflagU", "oddpairs", "inblock", "ininclude",
+              "missinginc", "malformed", "unknownproc", "badcmdline", "strayend", "badflag", "badflagU", "oddpairs", "inblock", "ininclude", "flaginc",
               \* programs whose result depends on what an include / exclude file is parsed WITH
               "exA", "exB", "incpairs",
               \* compiles and formats, but `format --check' objects to it whatever its layout
@@ -35,11 +35,11 @@ InitSrcsAll == { Assign("store", "loadonly", "plain"),      \* a stored name mus
               Assign("malformed", "plain", "store"), Assign("plain", "missinginc", "define"), Assign("define", "plain", "unknownproc"),
               Assign("exA", "exB", "incpairs"), Assign("incpairs", "exB", "exA"), Assign("badflagU", "incpairs", "plain"),
               Assign("badcmdline", "strayend", "plain"), Assign("plain", "badflag", "oddpairs"), Assign("inblock", "plain", "ininclude"),
-              Assign("upperi", "plain", "define"), Assign("store", "upperi", "strayend") }
+              Assign("upperi", "plain", "define"), Assign("store", "upperi", "strayend"), Assign("plain", "flaginc", "store") }
 
 InitSrcsQuick == { Assign("store", "loadonly", "plain"), Assign("define", "refonly", "none"), Assign("exA", "exB", "incpairs"),
                    Assign("plain", "unclosed", "define"), Assign("badcmdline", "strayend", "flagsprefix"),
-                   Assign("incl", "badflagU", "oddpairs"), Assign("malformed", "missinginc", "unknownproc"), Assign("inblock", "upperi", "ininclude") }
+                   Assign("incl", "badflagU", "oddpairs"), Assign("malformed", "missinginc", "unknownproc"), Assign("inblock", "upperi", "ininclude"), Assign("flaginc", "plain", "store") }
 InitSrcs == IF Full THEN InitSrcsAll \cup InitSrcsQuick ELSE InitSrcsQuick
 
 Init == /\ src \in InitSrcs
